@@ -37,7 +37,9 @@ var c07Carriers = []string{"GetBlob", "GetBlobRange", "GetManifest", "GetTag", "
 	"PushBlobChunked", "PushBlobChunkedResume", "MountBlob", "PushManifest", "DeleteBlob", "DeleteManifest", "DeleteTag",
 	"Repositories", "Tags", "Referrers",
 	// the error arises later, in the BlobWriter the backend handed out
-	"Writer.Write", "Writer.Close", "Writer.Commit"}
+	"Writer.Write", "Writer.Close", "Writer.Commit",
+	// resume that asks the registry for the offset (a GET of the upload status)
+	"PushBlobChunkedResume.ask"}
 
 // failingWriter is a BlobWriter whose chosen method fails with err.
 type failingWriter struct {
@@ -195,6 +197,13 @@ func c07(env *core.Env) {
 			_, err = w.Commit(dig)
 			var perr interface{ Unwrap() error }
 			_ = perr
+			return err
+		case "PushBlobChunkedResume.ask":
+			id := "id"
+			for i := 0; i < hops; i++ {
+				id = "http://sim.example/v2/foo/bar/blobs/uploads/" + base64.RawURLEncoding.EncodeToString([]byte(id))
+			}
+			_, err := r.PushBlobChunkedResume(ctx, repo, id, -1, 0)
 			return err
 		case "Writer.Write", "Writer.Close", "Writer.Commit":
 			w, err := r.PushBlobChunked(ctx, repo, 1)
